@@ -34,6 +34,15 @@ CLAIMED = {
         "vectors in generated cases); TfLite kind not exercised; metrics share get_inference_function with explainers (dispatch stream) but no metric "
         "is run end to end with a custom operator here (C14/C15 do with the default one).",
    design="5 (C02)", technique="Coq proofs (finite case analysis, order reasoning via lra/nra, list induction) + differential correspondence incl. exhaustive dispatch table"),
+ "C09": dict(
+   text="Machine-checked proof (Coq 8.16.1, closed under the global context) that an executable Gallina transcription of Rise.explain (loop over mask "
+        "batches with remainder batch, numerator/denominator accumulators) equals, for every score function, input kind, mask list, mask value, "
+        "nb_samples >= 1 and batch size, the map sum_k score(m_k x+(1-m_k)v) m_k /(sum_k m_k + 1e-4); constant-score, min/max bound, query-form, "
+        "query-count and crop-size consequences proved; tied to /repo on every run by a correspondence check that recovers the masks actually applied "
+        "from a recording model (bit-exactly for mask value 0) and compares maps and queries inside Coq.",
+   note="Trusted: Coq kernel + vm_compute; hand-written model (correspondence only); harness; TF RNG/resize/crop (mask range and shape checked at run time, "
+        "distribution reported as support only); float32 tolerances tolA=tolB=5e-6 condition-scaled, exact query equality in the v=0 class; row-wise score.",
+   design="5 (C09)", technique="Coq proof Model=Spec by induction over mask batches (pair fold -> vsum), lra/nra order lemmas; differential correspondence with recorded random masks (vm_compute)"),
 }
 PENDING_REASON = "check not built yet in this session (work in progress; planned in DESIGN.md section 5)"
 
